@@ -182,6 +182,7 @@ var errClassTable = []struct{ sub, class string }{
 	{"invalid list sequence", "listseq"},
 	{"invalid list meta", "listmeta"},
 	{"zset score overflow", "scoreoverflow"},
+	{"not a number (nan)", "scorenan"},
 	{"namespace is not found", "nons"},
 	{"not ready for write", "notready"},
 	{"invalide db value", "dbvalue"},
